@@ -21,10 +21,14 @@ LEVEL = "model_checking"
 
 PLANS = [
     # op, layout, slot, missing ok, line, floor
-    [["Save", "A", "file", False, 0, 0], ["Save", "A", "bytes", True, 0, 0], ["Load", "B", "bytes", False, 0, 0],
+    # both plans densify a line of B BEFORE anything is loaded into B and again afterwards (same floor): a dense view that
+    # survives the replacement of the line's matrix would show the old values
+    [["Dense", "B", "file", False, 1, 80],
+     ["Save", "A", "file", False, 0, 0], ["Save", "A", "bytes", True, 0, 0], ["Load", "B", "bytes", False, 0, 0],
      ["Dense", "B", "file", False, 1, 80], ["Load", "B", "file", False, 0, 0], ["Dense", "B", "file", False, 2, 20],
      ["Dense", "A", "file", False, 1, 80]],
-    [["Save", "A", "bytes", False, 0, 0], ["SaveLegacy", "A", "file", False, 0, 0], ["Load", "B", "file", False, 0, 0],
+    [["Dense", "B", "file", False, 1, 20],
+     ["Save", "A", "bytes", False, 0, 0], ["SaveLegacy", "A", "file", False, 0, 0], ["Load", "B", "file", False, 0, 0],
      ["Save", "B", "file", True, 0, 0], ["Load", "A", "file", False, 0, 0], ["Dense", "A", "file", False, 1, 80],
      ["Load", "B", "bytes", False, 0, 0], ["Dense", "B", "file", False, 1, 20]],
 ]
